@@ -476,7 +476,7 @@ def correspondence(ctx):
         exhaustive(ctx, b, rng, 4, "C", False, 4)
         random_stream(ctx, b, rng, 3000)
     else:
-        exhaustive(ctx, b, rng, 4, "U", True, 4)
+        exhaustive(ctx, b, rng, 5, "U", True, 4)
         exhaustive(ctx, b, rng, 4, "I", False, 3)
         exhaustive(ctx, b, rng, 4, rng.choice(["C", "U"]), False, 3)
         random_stream(ctx, b, rng, 200)
@@ -485,6 +485,12 @@ def correspondence(ctx):
     for meta, item, out in zip(b.metas, all_items, res):
         op = item["op"]
         ctx.count(f"hyp/{op}/{'holds' if out['hyp'] else 'dup-keys(model only)'}")
+        if out.get("direct") is False:
+            # literal regrouping loop vs direct form (proved equal for distinct coordinates)
+            if out["hyp"]:
+                ctx.disagree(f"{op}: literal loop vs direct form of the model", b.expand(meta, item))
+            else:
+                ctx.count(f"{op}/direct-form-differs-on-duplicates")
         if out["spec"] is False:
             ctx.fail(f"{op}: result violates the relational definition (Spec.{op}Spec false on the implementation's output)",
                      b.expand(meta, item), {"stream": meta["tag"]})
@@ -505,8 +511,8 @@ def correspondence(ctx):
 if __name__ == "__main__":
     common.run_check(
         "C10", module="Bermuda.Properties.C10", driver_targets=["drv_c10"],
-        correspondence=correspondence, level="translation_validation",
-        rule="exhaustive: every pair (a, b) of sub-triangles of a 4-coordinate (thorough: 6) two-slice universe whose "
+        correspondence=correspondence, level="proof",
+        rule="exhaustive: every pair (a, b) of sub-triangles of a 5- and two 4-coordinate (thorough: 6) two-slice universes whose "
              "left/right versions differ in values, field sets, partly metadata/prev/evaluation date x 6 join types x "
              "every `on` subset of {country, k} for join and merge, every pair for add_statics / period_merge, every "
              "triple of sub-triangles for coalesce; designed + seeded random universes, cumulative / incremental / "
